@@ -217,7 +217,13 @@ fn ffi_expressible(req: &Value) -> bool {
 pub fn gen_history(r: &mut StdRng, scn: usize) -> Vec<Op> {
   let n = r.gen_range(10..=40);
   let n_ids = r.gen_range(3..=IDS.len());
-  let ids = &IDS[..n_ids];
+  // every third history also uses an id with a leading blank (add accepts it untrimmed)
+  let mut pool: Vec<&str> = IDS[..n_ids].to_vec();
+  if scn % 3 == 2 {
+    pool.push(" g");
+    pool.push("g");
+  }
+  let ids = &pool[..];
   let with_invalid = scn % 2 == 1;
   let mut ops = vec![Op::Init];
   let mut ver = 0u64;
@@ -244,7 +250,8 @@ pub fn gen_history(r: &mut StdRng, scn: usize) -> Vec<Op> {
       }
       38..=48 => {
         let k = if chance(r, 1, 4) { 2 } else { 1 };
-        Op::Delete((0..k).map(|_| pick(r, ids).to_string()).collect())
+        let padded = scn % 3 == 2 && chance(r, 1, 3);
+        Op::Delete((0..k).map(|_| if padded { " g".to_string() } else { pick(r, ids).to_string() }).collect())
       }
       49..=66 => Op::Commit,
       67..=70 => Op::Compact,
@@ -315,7 +322,7 @@ pub fn history_from_case(case: &Value, r: &mut StdRng) -> Vec<Op> {
         if d["valid"] == true { make_doc(r, id, ver) } else { make_invalid_doc(r, id, ver) }
       })
       .collect();
-    let ids: Vec<String> = o["ids"].as_array().cloned().unwrap_or_default().iter().filter_map(|x| x.as_str().map(|s| s.to_string())).collect();
+    let ids: Vec<String> = o["ids"].as_array().cloned().unwrap_or_default().iter().filter_map(|x| x["id"].as_str().map(|s| s.to_string())).collect();
     match o["kind"].as_str().unwrap_or("") {
       "add" => ops.push(Op::Add(docs)),
       "update" => ops.push(Op::Update(docs)),
@@ -1088,7 +1095,12 @@ fn op_json(op: &Op, lib_had_cursor: bool) -> Value {
   });
   match op {
     Op::Add(d) | Op::Update(d) => o["docs"] = json!(docs(d)),
-    Op::Delete(ids) => o["ids"] = json!(ids),
+    Op::Delete(ids) => {
+      o["ids"] = json!(ids
+        .iter()
+        .map(|i| json!({"id": i, "trimmed": i.trim(), "padded": i.trim() != i.as_str()}))
+        .collect::<Vec<_>>())
+    }
     Op::Search(s) => {
       let cur = if lib_had_cursor { Some("x".to_string()) } else { None };
       o["req"] = summary(s, lib_had_cursor);
